@@ -191,3 +191,42 @@ func fileWriters(c *rig.Ctx) {
 		c.Case(rig.Hash(uint64(i), r.U64(), 9))
 	})
 }
+
+// ramStores: stores to cartridge RAM (any controller, any contents - including the signature
+// test ROMs use to mark a text buffer in RAM) deliver nothing to the serial writer; only SB does.
+func ramStores(c *rig.Ctx) {
+	c.Require("ram_store_cases")
+	carts := []uint8{0x03, 0x13, 0x1b, 0x06, 0x10}
+	c.Part("ram-stores", int64(len(carts))*6, func(i int64, r *rig.Rng) {
+		buf := &bytes.Buffer{}
+		m := rig.MustNew(rig.BlankROM(carts[i%int64(len(carts))], 1, 3), rig.Opts{SerialWriter: buf})
+		m.Mem.Write(0x0000, 0x0a)
+		var want []byte
+		sig := []uint8{0x80, 0xde, 0xb0, 0x61}
+		for k, v := range sig {
+			m.Mem.Write(0xa000+uint16(k), v)
+		}
+		for k := 0; k < 300; k++ {
+			switch r.Intn(4) {
+			case 0:
+				v := r.U8()
+				m.Mem.Write(0xff01, v)
+				want = append(want, v)
+			case 1:
+				m.Mem.Write(0xa004+uint16(r.Intn(200)), 0x20+uint8(r.Intn(0x5f)))
+			case 2:
+				m.Mem.Write(0xa000+uint16(r.Intn(0x2000)), r.U8())
+			case 3:
+				for t := 0; t < r.Intn(50); t++ {
+					m.Step()
+				}
+			}
+		}
+		if !bytes.Equal(buf.Bytes(), want) {
+			c.Violate("ram-stores-"+classOf(buf.Bytes(), want), fmt.Sprintf("cartridge type %02X, stores to SB interleaved with stores to cartridge RAM: %s", carts[i%int64(len(carts))], diff(buf.Bytes(), want)), nil)
+			return
+		}
+		c.Count("ram_store_cases", 1)
+		c.Case(rig.Hash(uint64(i), r.U64(), 11))
+	})
+}
